@@ -114,6 +114,12 @@ def activate_in(receiver_pk, cipher, mac, comp="none", salt=0, strict=False):
     stub_transport(receiver_pk, cipher, mac, comp, server=True, salt=salt, strict=strict, direction="in")._activate_inbound()
 
 
+def complete_rekey(receiver_pk):
+    """the other half of a key switch on the receiving Packetizer (its own outbound side, unused here): with it
+    `__init_count` reaches 3 and a pending rekey request is cleared, as after a full NEWKEYS exchange"""
+    receiver_pk.set_outbound_cipher(None, 8, None, 0, b"")
+
+
 def activate_out(sender_pk, cipher, mac, comp="none", salt=0, strict=False):
     stub_transport(sender_pk, cipher, mac, comp, server=False, salt=salt, strict=strict, direction="out")._activate_outbound()
 
@@ -414,7 +420,32 @@ def translate_write_all():
     return src, {"write_all_retry_n": ([], []), "write_all_zero_limit": ([], [])}
 
 
+def translate_rekey_constants():
+    """the four REKEY_* class constants of Packetizer, as shipped (read from the class body's AST, evaluated)"""
+    import paramiko.packet as pkmod
+
+    tree = ast.parse(inspect.getsource(pkmod))
+    cls = next(n for n in tree.body if isinstance(n, ast.ClassDef) and n.name == "Packetizer")
+    vals = {}
+    for st in cls.body:
+        if isinstance(st, ast.Assign) and len(st.targets) == 1 and isinstance(st.targets[0], ast.Name) \
+                and st.targets[0].id.startswith("REKEY_"):
+            try:
+                vals[st.targets[0].id] = int(eval(compile(ast.Expression(st.value), "<rekey>", "eval"), {"pow": pow}))
+            except Exception:
+                raise Untranslatable("REKEY constant %s is not a constant expression" % st.targets[0].id)
+    want = ["REKEY_PACKETS", "REKEY_BYTES", "REKEY_PACKETS_OVERFLOW_MAX", "REKEY_BYTES_OVERFLOW_MAX"]
+    if sorted(vals) != sorted(want):
+        raise Untranslatable("REKEY_* constants changed: %r" % sorted(vals))
+    src = "".join("def %s : Int :=\n  (%d : Int)\n\n" % (k.lower(), vals[k]) for k in want)
+    return src, {k.lower(): ([], []) for k in want}
+
+
 EXPECTED_SIG = {
+    "rekey_packets": ([], []),
+    "rekey_bytes": ([], []),
+    "rekey_packets_overflow_max": ([], []),
+    "rekey_bytes_overflow_max": ([], []),
     "write_all_retry_n": ([], []),
     "write_all_zero_limit": ([], []),
     "padding": (["block_size_out", "len_payload"], ["etm_out", "aead_out"]),
@@ -438,9 +469,11 @@ def gen_lean(ctx=None):
     k1, s1 = translate_build_packet()
     k2, s2 = translate_counters()
     k3, s3 = translate_write_all()
+    k4, s4 = translate_rekey_constants()
     sig = dict(s1)
     sig.update(s2)
     sig.update(s3)
+    sig.update(s4)
     if sig != EXPECTED_SIG:
         raise Untranslatable("kernel inputs changed: %r" % sig)
     lines = [
@@ -474,6 +507,7 @@ def gen_lean(ctx=None):
     lines.append(k1)
     lines.append(k2)
     lines.append(k3)
+    lines.append(k4)
     lines.append("end PV.Generated.C03")
     return "\n".join(lines) + "\n"
 
@@ -697,15 +731,25 @@ class FragSock:
         self.sched = list(sched)
         self.recv_sizes = []
         self.pk = pk
+        self._true_flag = None
 
     def feed(self, data):
         self.data += data
 
+    def restore_flag(self):
+        """the flag value scripted for a timeout is only visible at that timeout; afterwards the Packetizer's own
+        value (its rekey accounting) is put back"""
+        if self._true_flag is not None and self.pk is not None:
+            self.pk._Packetizer__need_rekey = self._true_flag
+        self._true_flag = None
+
     def recv(self, n):
         self.recv_sizes.append(n)
+        self.restore_flag()
         k = self.sched.pop(0) if self.sched else None
         if k == 0 or k == "r":
             if self.pk is not None:
+                self._true_flag = self.pk._Packetizer__need_rekey
                 self.pk._Packetizer__need_rekey = k == "r"
             raise socket.timeout()
         if k is not None:
@@ -804,6 +848,8 @@ def classify(exc):
             return "badBlocking"
         if "rolled over" in msg:
             return "seqRollover"
+        if "ignoring rekey requests" in msg:
+            return "ignoringRekey"
         return "ssh:" + msg[:30]
     if name == "error" and type(exc).__module__ == "zlib":
         return "decompress"
@@ -923,15 +969,18 @@ def read_message_retrying(pk, limit=100000):
     from paramiko.packet import NeedRekeyException
 
     retries = 0
+    sock = pk._Packetizer__socket
+    restore = getattr(sock, "restore_flag", lambda: None)
     while True:
         try:
             cmd, m = pk.read_message()
-            pk._Packetizer__need_rekey = False
+            restore()
             return cmd, m, retries
         except NeedRekeyException:
+            restore()
             retries += 1
             if retries > limit:
                 raise RuntimeError("NeedRekeyException loop")
         except Exception:
-            pk._Packetizer__need_rekey = False
+            restore()
             raise
